@@ -47,24 +47,30 @@ Section Paths.
   (* ... and its sub-table, well-formedness and fuel need are those of a sub-tree *)
   Lemma path_folders_sub : forall n path u i ch,
     In (u, (i, ch)) (path_folders E site drive path n) -> ids_ok n = true -> links_ok P n = true ->
+    pages_ok E site drive P n = true ->
     incl (folder_entries E site drive P i ch ++ flat_map (node_entries E site drive P) ch) (node_entries E site drive P n)
     /\ forallb ids_ok ch = true /\ forallb (links_ok P) ch = true /\ cuts_ok (P i) = true
-    /\ need P i ch <= need_node P n.
+    /\ need P i ch <= need_node P n
+    /\ nodup_str_pre (children_url E site drive i :: map snd (P i)) = true
+    /\ forallb (pages_ok E site drive P) ch = true.
   Proof.
     apply (node_ind' (fun n => forall path u i ch,
       In (u, (i, ch)) (path_folders E site drive path n) -> ids_ok n = true -> links_ok P n = true ->
+      pages_ok E site drive P n = true ->
       incl (folder_entries E site drive P i ch ++ flat_map (node_entries E site drive P) ch) (node_entries E site drive P n)
       /\ forallb ids_ok ch = true /\ forallb (links_ok P) ch = true /\ cuts_ok (P i) = true
-      /\ need P i ch <= need_node P n));
+      /\ need P i ch <= need_node P n
+      /\ nodup_str_pre (children_url E site drive i :: map snd (P i)) = true
+      /\ forallb (pages_ok E site drive P) ch = true));
       try (intros; simpl in *; tauto).
     intros nm i0 fc0 ch0 HF path u i ch. destruct nm as [nm|]; cbn [path_folders]; [|simpl; tauto].
-    intros Hin Hi Hl. cbn [ids_ok] in Hi. cbn [links_ok] in Hl.
-    apply andb_true_iff in Hi as [Hi0 Hi]. apply andb_true_iff in Hl as [Hl0 Hl].
+    intros Hin Hi Hl Hp. cbn [ids_ok] in Hi. cbn [links_ok] in Hl. cbn [pages_ok] in Hp.
+    apply andb_true_iff in Hi as [Hi0 Hi]. apply andb_true_iff in Hl as [Hl0 Hl]. apply andb_true_iff in Hp as [Hp0 Hp].
     destruct Hin as [H|H].
     - inversion H; subst. repeat split; auto. apply incl_refl.
     - apply in_flat_map in H as (c & Hc & Hin). rewrite Forall_forall in HF.
-      rewrite forallb_forall in Hi, Hl.
-      destruct (HF c Hc _ _ _ _ Hin (Hi c Hc) (Hl c Hc)) as (Hincl & H1 & H2 & H3 & H4).
+      rewrite forallb_forall in Hi, Hl, Hp.
+      destruct (HF c Hc _ _ _ _ Hin (Hi c Hc) (Hl c Hc) (Hp c Hc)) as (Hincl & H1 & H2 & H3 & H4 & H5 & H6).
       repeat split; auto.
       + intros x Hx. cbn [node_entries]. apply in_or_app. right. apply in_flat_map. exists c. split; auto.
       + change (need_node P (Folder (Some nm) i0 fc0 ch0)) with (need P i0 ch0). unfold need at 2.
@@ -98,6 +104,11 @@ Section Paths.
   Lemma wf_parts_d :
     forallb ids_ok T = true /\ cuts_ok (P None) = true /\ forallb (links_ok P) T = true
     /\ nodup_str (token_url E :: map fst table) = true /\ nonempty (base E) = true.
+  Proof. unfold server_wf in Hwf. repeat (apply andb_true_iff in Hwf as [Hwf ?]). auto. Qed.
+
+  Lemma wf_pages_d :
+    nodup_str_pre (children_url E site drive None :: map snd (P None)) = true
+    /\ forallb (pages_ok E site drive P) T = true.
   Proof. unfold server_wf in Hwf. repeat (apply andb_true_iff in Hwf as [Hwf ?]). auto. Qed.
 
   Lemma table_folder_entries u o :
@@ -143,7 +154,7 @@ Section Paths.
                /\ tok s' = Some tk /\ balanced s s' /\ nreq s <= nreq s'.
   Proof.
     intros f p w n0 s fuel Hw Hn Ht Hfuel Hcmp.
-    destruct wf_parts_d as (Hi & Hcu & Hl & Hnd & Hb).
+    destruct wf_parts_d as (Hi & Hcu & Hl & Hnd & Hb). destruct wf_pages_d as (Hpg0 & Hpg).
     assert (Hsv : serves w n0 tk table) by (eapply healthy_from_serves; eauto).
     assert (Hfilter : forall l, forallb (comparable E f) l = true ->
                                 filter_matches E f l = Ok (filter (spec_matches E f) l)).
@@ -158,7 +169,8 @@ Section Paths.
         apply assoc_In in Hres. apply in_flat_map in Hres as (c & Hc & Hin).
         pose proof (path_folders_entry c [] key i ch Hin) as Hent.
         rewrite forallb_forall in Hi, Hl.
-        destruct (path_folders_sub c [] key i ch Hin (Hi c Hc) (Hl c Hc)) as (Hincl & H1 & H2 & H3 & H4).
+        assert (Hpc : pages_ok E site drive P c = true) by (rewrite forallb_forall in Hpg; auto).
+        destruct (path_folders_sub c [] key i ch Hin (Hi c Hc) (Hl c Hc) Hpc) as (Hincl & H1 & H2 & H3 & H4 & H5 & H6).
         assert (Hkey : In (key, item_obj i true) table).
         { unfold table, server_table. right. apply in_or_app. right. unfold path_entries.
           apply in_flat_map. exists c. auto. }
@@ -167,11 +179,13 @@ Section Paths.
         destruct (walk_any E site drive P Hb i ch p w (adv s [(false, key)]) tk n0 fuel) as [l R]; auto.
         { eapply serves_incl; [exact Hsv|]. intros x Hx. unfold table, server_table, child_entries.
           right. apply in_or_app. left. apply in_or_app. right. apply in_flat_map. exists c. split; auto. }
-        { rewrite nreq_adv. lia. }
-        { pose proof (list_sum_In (need_node P) T c Hc). unfold need in Hfuel. lia. }
+        { rewrite nreq_adv. clear - Hn. lia. }
+        { pose proof (list_sum_In (need_node P) T c Hc) as Hls. unfold need in Hfuel. clear - Hls Hfuel H4. lia. }
+        clear H5 H6 Hpg Hpg0 Hpc.
         rewrite R, (Hfilter _ Hcmp). cbn [lift run]. eexists; split; [reflexivity|].
         unfold balanced, nreq; simpl. rewrite !app_length. simpl. repeat split; auto; lia.
       + (* no such folder: 404, or an entry that is not a folder *)
+        clear Hpg Hpg0.
         rewrite (get_json_cached E w key s tk Ht). unfold send. rewrite (Hw (nreq s) _ Hn).
         unfold healthy. cbn [r_url r_auth].
         assert (Hst : forall x : res (list fmeta), exists s', (x, open_close (log (false, key) s)) = (x, s')
@@ -193,6 +207,7 @@ Section Paths.
       destruct (walk_any E site drive P Hb None T [] w s tk n0 fuel) as [l R]; auto.
       { eapply serves_incl; [exact Hsv|]. intros x Hx. unfold table, server_table, child_entries. right.
         apply in_or_app. left. exact Hx. }
+      clear Hpg Hpg0.
       rewrite R, (Hfilter _ Hcmp). cbn [lift run]. eexists; split; [reflexivity|].
       unfold balanced, nreq; simpl. rewrite !app_length. repeat split; auto; lia.
   Qed.
